@@ -1,6 +1,8 @@
 import Driver.Util
 import Driver.Graph
 import Driver.Types
+import Driver.Names
+import Driver.Validators
 /-! `tgdriver`: reads one JSON request per line on stdin, answers one JSON line per request. -/
 open Lean Drv
 
@@ -12,6 +14,9 @@ def dispatch (op : String) (inp imp : Json) : Except String Json :=
   | "parseTS" => opParseTS inp imp
   | "site" => opSite inp imp
   | "prefix" => opPrefix inp imp
+  | "name" => opName inp imp
+  | "fieldAttrs" => opFieldAttrs inp imp
+  | "validator" => opValidator inp imp
   | _ => .error s!"unknown op {op}"
 
 def handleLine (line : String) : String :=
